@@ -17,7 +17,7 @@ class Prop:
             "(outbound branches, inbound transport branches, handshake branches, key rotation, staged overflow > 128 containers, "
             "overflow then down/up, counter limit with out-of-order re-staging, down/up cycles, persistent keepalive, removal, "
             "identity change, close with packets staged, close while down, rate-limited handshakes under load with a consumed cookie) + random plans from one PRNG; counts read after every "
-            "step, Close followed by two runtime.GC(); 29 stall scenarios with very small pools; non-trivial = the plan reaches "
+            "step, Close followed by two runtime.GC(); 29 stall scenarios with very small pools + 4 rounds of two goroutines waiting on an exhausted message-buffer pool while a two-element batch is released; non-trivial = the plan reaches "
             "at least 6 different branch kinds and at least one step with packets staged; distinct by content hash")
     assumptions = ["pools are bounded through the package variable device.VerifPoolMax (build tag verif) so that WaitPool.count is maintained",
                    "counts are read at quiescent points only (sim queues empty, device queues empty, all device goroutines parked twice in a row)",
@@ -58,6 +58,8 @@ class Prop:
             "actions_not_applicable": sum(c.get("skipped", 0) for c in cases),
             "stall_scenarios": len(stalls), "stall_pool_max": sorted({c.get("pool_max") for c in stalls}),
             "stalled": [c["stall"] for c in stalls if c.get("stall")],
+            "two_waiter_rounds": sum(1 for c in stalls if c["gen"] == "stall:two-waiters"),
+            "two_waiter_rounds_inconclusive": sum(1 for c in stalls if c["gen"] == "stall:two-waiters" and c.get("skipped")),
         }
         return files, cases
 
@@ -114,7 +116,7 @@ class Prop:
 
     def shrink_candidates(self, case):
         plan = case["plan"]
-        if len(plan) == 1 and plan[0].startswith("stall "):
+        if len(plan) == 1 and (plan[0].startswith("stall ") or plan[0].startswith("twowaiters")):
             return
         n = len(plan)
         chunk = max(n // 2, 1)
